@@ -12,6 +12,7 @@ from checks.rfafam import ALL6, shape_configs, inputs, make, num
 
 class Grid(Family):
     name = "rfa-grid"
+    split_depth = 12
     doc = "every strategy: types, length, every n-th abscissa identical to the input, equal positive gaps, finite"
 
     def configs(self, tier):
